@@ -57,8 +57,10 @@ def _gen_jobs(q):
     if q:
         return [
             ("g1semi", {"Coords": "{0, 2, 4}", "Dims": 1, "MaxBoxes": 3, "WithNull": "TRUE", "WithSemi": "TRUE"}, 1, True),
-            ("g1four", {"Coords": "{0, 2, 4}", "Dims": 1, "MaxBoxes": 4, "WithNull": "FALSE", "WithSemi": "FALSE"}, 2, False),
-            ("g2", {"Coords": "{0, 2}", "Dims": 2, "MaxBoxes": 3, "WithNull": "FALSE", "WithSemi": "FALSE"}, 2, True),
+            ("g1four", {"Coords": "{0, 2, 4}", "Dims": 1, "MaxBoxes": 4, "WithInf": "FALSE", "WithNull": "FALSE",
+                        "WithSemi": "FALSE"}, 2, False),
+            ("g2", {"Coords": "{0, 2}", "Dims": 2, "MaxBoxes": 3, "WithInf": "FALSE", "WithNull": "FALSE",
+                    "WithSemi": "FALSE"}, 2, True),
         ]
     return [
         ("g1semi", {"Coords": "{0, 2, 4}", "Dims": 1, "MaxBoxes": 3, "WithNull": "TRUE", "WithSemi": "TRUE"}, 1, True),
@@ -88,17 +90,6 @@ def _summary(out):
     return json.loads(m.group(1).replace('\\"', '"'))
 
 
-def _line(path, k):
-    try:
-        with open(path) as fh:
-            for i, line in enumerate(fh, 1):
-                if i == k:
-                    return line.strip()
-    except OSError:
-        pass
-    return ""
-
-
 def _context(path, k):
     """Record k and the Build record it refers to."""
     rec, build = "", ""
@@ -115,7 +106,7 @@ def _context(path, k):
     return rec, build
 
 
-def _first_bad_query(rec, clause=None):
+def _first_bad_query(rec):
     """For the report: the queries of a Find record, shortest first (the spec decides, not this)."""
     try:
         r = json.loads(rec)
